@@ -66,6 +66,7 @@ class Ev:
         env["@prog"] = self.prog
         env["@enum_as_int"] = True
         env["@ieee"] = True
+        env["@lenient"] = tuple(k[4:] for k in env if isinstance(k, str) and k.startswith("@fn:"))
         return unwrap(formula.evaluate(e, env))
 
 
